@@ -22,8 +22,8 @@ theorem vcf_literals :
     Generated.VCF_FORMAT_GAIN = ["GT", "GQ", "CN", "CNQ"] ∧ Generated.VCF_FORMAT_LOSS = ["GT", "GQ"] :=
   ⟨rfl, rfl, rfl, rfl, rfl, rfl, rfl⟩
 
-/-- SEG starts and range labels are 1-based: the writers add 1 to the 0-based start -/
-theorem one_based_shifts : Generated.SEG_START_SHIFT = 1 ∧ Generated.LABEL_START_SHIFT = 1 := ⟨rfl, rfl⟩
+/-- SEG starts are 1-based: the writer adds 1 to the 0-based start -/
+theorem seg_start_shift : Generated.SEG_START_SHIFT = 1 := rfl
 
 /-! ### the copy number and the expected copy number of a segment -/
 
@@ -220,12 +220,14 @@ theorem table_one_row_per_bin_cdt (first : BinSample) (rest : List BinSample)
   refine ⟨_, mergeSamples_ok first rest hl hd, rfl, ?_⟩
   exact fmtCdt_rows _ first (first :: rest) hlen
 
-/-- nexus-basic: one row per bin with its coordinates, gene, log2 and range label -/
+/-- nexus-basic: one row per bin with its coordinates, gene, log2 and its range label
+    `chromosome:start+1-end` (cnvkit's 1-based text coordinates) -/
 theorem nexus_one_row_per_bin (bins : List Bin) :
     (nexusBasic bins).length = bins.length ∧
     ∀ i, i < bins.length →
       (nexusBasic bins)[i]? = some (let b := bins.getD i default
-        [Cell.str b.chrom, Cell.int b.s, Cell.int b.e, Cell.str b.gene, Cell.num b.v, Cell.str (toLabel b)]) :=
+        [Cell.str b.chrom, Cell.int b.s, Cell.int b.e, Cell.str b.gene, Cell.num b.v,
+         Cell.str (b.chrom ++ ":" ++ toString (b.s + 1) ++ "-" ++ toString b.e)]) :=
   nexusBasic_rows bins
 
 /-! ### what the code did before the two repairs (kept so that the history stays checkable) -/
